@@ -300,6 +300,8 @@ Plan gen_plan(int prop, uint64_t runseed) {
     p.k.strict = (corrupt_rate || alloc_rate) ? 0 : 1;
     // who executes each step (drawn from a generator of its own: the plans of earlier versions are unchanged): in a fifth of the histories a third
     // of the steps are handed to one of two long-lived helper threads
+    // the surroundings of a step (likewise a generator of its own): in one history in six a quarter of the steps run during stack unwinding
+    { Rng ur; ur.seed(simrt::mix(runseed, 0x756e77, 1)); if (ur.below(6) == 0) for (Op &o : p.ops) if (ur.below(4) == 0) o.uw = 1; }
     { Rng tr; tr.seed(simrt::mix(runseed, 0x746872, 1)); if (tr.below(5) == 0) for (Op &o : p.ops) if (tr.below(3) == 0) o.thr = (uint8_t)(1 + tr.below(2)); }
     return p;
 }
